@@ -487,6 +487,23 @@ def _coerce_cmp(o):
     return r
 
 
+_AFF_MIN = 1 << 64
+
+
+def _aff_note(res, src, a, b):
+    """remember that res == a*base + b for a wide symbolic base (mathematical integers): lets a later `% n` be computed from base % n"""
+    ex = CUR
+    if ex is None or not isinstance(res, SymInt) or res.inx or src.inx or src.hi - src.lo < _AFF_MIN:
+        return res
+    t = ex.aff.get(src.e.get_id())
+    if t is not None:
+        base, a0, b0 = t[1], t[2], t[3]
+        ex.aff[res.e.get_id()] = (res.e, base, a0 * a, b0 * a + b)
+    else:
+        ex.aff[res.e.get_id()] = (res.e, src, a, b)
+    return res
+
+
 class SymInt:
     __slots__ = ("e", "lo", "hi", "inx")
 
@@ -561,13 +578,13 @@ class SymInt:
         if isinstance(o, int):
             if o == 0:
                 return self
-            return _ring(lambda a, b: a + b, self.lo + o, self.hi + o, self, o)
+            return _aff_note(_ring(lambda a, b: a + b, self.lo + o, self.hi + o, self, o), self, 1, o)
         return _ring(lambda a, b: a + b, self.lo + o.lo, self.hi + o.hi, self, o)
 
     __radd__ = __add__
 
     def __neg__(self):
-        return _ring(lambda a: -a, -self.hi, -self.lo, self)
+        return _aff_note(_ring(lambda a: -a, -self.hi, -self.lo, self), self, -1, 0)
 
     def __pos__(self):
         return self
@@ -598,8 +615,8 @@ class SymInt:
             cs = (self.lo * o, self.hi * o)
             lo, hi = min(cs), max(cs)
             if o > 0 and o & (o - 1) == 0:
-                return self << (o.bit_length() - 1)
-            return _ring(lambda a, b: a * b, lo, hi, self, o)
+                return _aff_note(self << (o.bit_length() - 1), self, o, 0)
+            return _aff_note(_ring(lambda a, b: a * b, lo, hi, self, o), self, o, 0)
         cs = (self.lo * o.lo, self.lo * o.hi, self.hi * o.lo, self.hi * o.hi)
         return _ring(lambda a, b: a * b, min(cs), max(cs), self, o)
 
@@ -641,6 +658,12 @@ class SymInt:
                         return self >> k
                     return (self >> k, self & (o - 1))
             if o > 0 and CUR is not None and not CUR.no_fork:
+                if want == "r":
+                    t = CUR.aff.get(self.e.get_id())
+                    if t is not None:
+                        # (a*base + b) mod o == (a*(base mod o) + b) mod o : one remainder per wide base, small arithmetic afterwards
+                        rb = t[1] % o
+                        return (t[2] * rb + t[3]) % o
                 return self._divmod_const_spec(o, want)
             olo = ohi = o
             w = max(need(self.lo, self.hi), need(o, o)) + 1
@@ -693,6 +716,10 @@ class SymInt:
         hit = ex.div_cache.get(ck)
         if hit is not None:
             Q, R = hit[1], hit[2]
+            if isinstance(R, SymInt):
+                cv = ex.conc.get(R.e.get_id())
+                if cv is not None:
+                    R = cv[1]               # the remainder was fixed by a concretize() on this path
             return Q if want == "q" else (R if want == "r" else (Q, R))
         qlo, qhi = self.lo // o, self.hi // o
         if qhi - qlo <= 8:
@@ -1161,6 +1188,8 @@ class Explorer:
         self.decisions = []
         self.decided = {}
         self.div_cache = {}
+        self.conc = {}          # term id -> (term, value): terms fixed to a value by concretize() on this path
+        self.aff = {}           # term id -> (term, base, a, b): term == a*base + b (see _aff_note)
         self.memo = {}          # per-path memo of pure term-building helpers (see memo())
         self.pc = []
         self._model = None
@@ -1376,6 +1405,7 @@ class Explorer:
             v = d[1]
             self.decisions.append(d)
             self.pc.append(x.e == bv(v, w))
+            self.conc[x.e.get_id()] = (x.e, v)
             if i == len(self.prefix) - 1:
                 self.model = self.prefix_model
                 self._model_pc_len = 0      # validate a resumed model against the whole re-built path condition
@@ -1403,6 +1433,7 @@ class Explorer:
             self.work.append((self.decisions + [("v", v)], m2))
         self.decisions.append(("v", v0))
         self.pc.append(x.e == bv(v0, w))
+        self.conc[x.e.get_id()] = (x.e, v0)
         return v0
 
     # -- harness API ---------------------------------------------------------------------------
